@@ -348,7 +348,7 @@ func drawC11(t *rapid.T) *Case {
 
 func init() {
 	register(&CheckDef{ID: "C10", Level: "fault_enumeration", Engine: "A", Draw: drawC10,
-		Rule:     "random part: a faulty client (random bytes on the raw TCP connection; random / mutated / truncated HTTP/2 frame bytes or HTTP/1.1 garbage inside a real TLS session; abort at a random offset; injected I/O error or callback panic) runs next to a concurrent control client and before a second control client; oracle: the worker process is alive and both control clients are served with correct fingerprints. Non-trivial: a fault fired or garbage was sent. Distinct: distinct controller action-label sequences.",
+		Rule:     "random part: a faulty client (random bytes on the raw TCP connection; random / mutated / truncated HTTP/2 frame bytes or HTTP/1.1 garbage inside a real TLS session; abort at a random offset; injected I/O error or callback panic; 35%: back-end answers that outlive drawn -timeout-http-read / -timeout-http-write values) runs next to a concurrent control client and before a second control client; oracle: the worker process is alive and both control clients are served with correct fingerprints. Non-trivial: a fault fired or garbage was sent. Distinct: distinct controller action-label sequences.",
 		EnumRule: "enumerated part: 9360 boundary frames (every frame type 0-9 x 8 flag sets x length 0-12 x 9 pad-length octets around the frame length and around length minus the fixed fields) behind a legal preface and an open stream; then, over a fixed HTTP/1.1 and a fixed HTTP/2 session: client disconnect (FIN and RST) after EVERY byte offset; a read error (ECONNRESET / timeout / generic), a write error (EPIPE / timeout) and a deadline-setter error at EVERY I/O operation index of the proxy side of the connection; a panic at EVERY occurrence of each user callback reachable from the connection goroutine (GetConfigForClient, GetCertificate, ConnState, header injector, request handler). After each case a control client performs a full request on a fresh connection. Quick tier: stride sample; thorough tier: every index.",
 		Enum:     &EnumDef{Params: faultParams, Count: c10Count, Case: c10Case}})
 }
